@@ -97,12 +97,11 @@ func abstractSort(t types.Type) (Sort, bool) {
 		switch n.Obj().Name() {
 		case "vZ":
 			return IntSort, true
-		case "vPt":
-			return USort("Pt"), true
-		case "vSc":
-			return USort("Sc"), true
-		case "vFe":
-			return USort("Fe"), true
+		case "vPt", "vSc", "vFe":
+			// abstract handles are 64-bit tokens: they merge with ordinary limb cells on paths that
+			// never wrote them, and EUF has the small-model property (a countermodel needs at most as
+			// many elements as there are terms), so 2^64 tokens lose no generality
+			return BV(64), true
 		case "vSeq":
 			return SeqSort, true
 		}
@@ -189,6 +188,8 @@ func (e *Engine) zeroCells(t types.Type, out []Value) []Value {
 			return append(out, e.st.Inti(0))
 		case SSeq:
 			return append(out, e.st.SeqEmpty())
+		case SBV:
+			return append(out, e.st.BVu(0, s.W))
 		default:
 			return append(out, e.st.Sym("zero_"+s.Name, s))
 		}
